@@ -594,6 +594,12 @@ def correspondence(ctx):
                 "qcow2ext listdirs; listing cases: generated listings (three layouts, tricky tags and sizes) through the "
                 "real show/findall and the Lean recognisers, plus mutated listings and character soup; non-trivial = more "
                 "than one image / at least one record; distinct by content hash")
+    ctx.assumptions = [
+        "on_off_partition / vt_show_listings speak about listings in qemu-img layout: ASCII, numeric ID, tag over [\\w.-], "
+        "at least one space between the columns (qemu >= 6.0 prints explicit spaces), a size of the shape "
+        "\\d+e?[-+]?[.\\d]* \\w+ of which only the zero size starts with `0 B`, a date YYYY-MM-DD (Rec.WF, Size.WF, Line.WF)",
+        "the hand recognisers are tied to Python's re only differentially (exact agreement demanded on every generated input)",
+    ]
     corpus = os.path.join(vlib.VERIF, "corpus", "C17")
     if os.path.isdir(corpus):
         import json
@@ -605,7 +611,7 @@ def correspondence(ctx):
              ram_case(rng, 2, [["launch"], ["launch"]], ["launch"]), ram_case(rng, 2, [[], ["launch"]], ["launch"])]
     run_cases(ctx, fixed)
     # exhaustive part
-    reps = 3 if thorough else 1
+    reps = 6 if thorough else 1
     cases = []
     n_assign = 0
     for n, sets, fourth in exhaustive_assignments():
@@ -622,7 +628,7 @@ def correspondence(ctx):
     # character classes
     batches(ctx, [{"kind": "cls", "code": i} for i in range(128)])
     # listings
-    n_list, n_mut, n_soup, n_ext = (30000, 12000, 6000, 2000) if thorough else (2000, 1200, 600, 300)
+    n_list, n_mut, n_soup, n_ext = (60000, 20000, 10000, 4000) if thorough else (2000, 1200, 600, 300)
     cases = []
     for i in range(n_list):
         cases.append({"kind": "qcow", "lines": gen_listing(rng), "trailing_newline": i % 2 == 0})
